@@ -58,7 +58,7 @@ let run_deque toks lines =
   let ((s, r), a') = ok (dq_new_conf mem capn !a) in
   a := a';
   match r with
-  | None -> Printf.printf "new %s |%s\n" (stat_name s) (ledger !a);
+  | None -> Printf.printf "new %s |%s ## new %s |\n" (stat_name s) (ledger !a) (stat_name s);
             List.iter (fun l -> match split_ws l with
                                 | [] -> () | "END" :: _ -> Printf.printf "end |%s\n" (ledger !a) | _ -> print_string "skip\n") lines
   | Some d0 ->
@@ -250,7 +250,7 @@ let run_queue toks lines =
   let ((s, r), a') = ok (q_new_conf mem capn !a) in
   a := a';
   match r with
-  | None -> Printf.printf "new %s |%s\n" (stat_name s) (ledger !a);
+  | None -> Printf.printf "new %s |%s ## new %s |\n" (stat_name s) (ledger !a) (stat_name s);
             List.iter (fun l -> match split_ws l with
                                 | [] -> () | "END" :: _ -> Printf.printf "end |%s\n" (ledger !a) | _ -> print_string "skip\n") lines
   | Some q0 ->
